@@ -488,6 +488,11 @@ def check(ctx):
     # obligations behind the implicit counts
     from . import invariants
     invariants.check_implicit_counts(ctx, p)
+    # a reloaded checkpoint must also restore the state that is NOT in the text while results exist:
+    # the first grid / first weights are recovered from the FIRST stored result (shared with C15)
+    from .common import share
+    share(ctx, 'C15', 'R10/C15.', ['R3.'])
+
 
 
 def short_where(rec):
